@@ -270,6 +270,23 @@ func (p *prop) tagsAndOracle(k *kase, impl string, o *obs, out *core.Outcome) {
 		}
 		return
 	}
+	// ---------------- OR: every attempt of the proxy loop carries the same forwarding fields
+	for i := 1; i < len(o.attempts); i++ {
+		for _, n := range fwdNames {
+			a, aok := o.attempts[0][n]
+			b, bok := o.attempts[i][n]
+			if aok != bok || (a == nil) != (b == nil) || strings.Join(a, "\x00") != strings.Join(b, "\x00") {
+				fail("retried-attempt-forwarded-headers-differ", fmt.Sprintf("attempt %d sends %s = %q, the first attempt sent %q (peer %q)", i+1, n, b, a, k.remote))
+				break
+			}
+		}
+	}
+	if len(o.attempts) > 1 {
+		tag(fmt.Sprintf("retry:attempts=%d,hops=%d", len(o.attempts), k.hops))
+	}
+	if o.sent && len(o.attempts) != k.fails+1 {
+		fail("harness-attempt-count", fmt.Sprintf("%d attempts, expected %d", len(o.attempts), k.fails+1))
+	}
 	if !o.sent {
 		fail("valid-remote-refused", fmt.Sprintf("remote %q: nothing was sent upstream (%s)", k.remote, impl))
 		return
